@@ -3,7 +3,7 @@
    argument that renderExpression (Pug/Compile.v carg) emits represents the value S (Spec/Sem.v sem_expr)
    prescribes.  Induction on the expression; the fuel bound is explicit. *)
 From PV Require Import Base.Bytes Base.Escape Js.Ast Tmpl.Value Tmpl.IR Tmpl.Runtime Tmpl.Exec Pug.Ast Pug.Compile
-  Pug.Lower Gen.OpsTable Spec.Sem Proofs.EscapeProofs Proofs.C01Proofs Proofs.C04Proofs.
+  Pug.Lower Gen.OpsTable Spec.Sem Proofs.EscapeProofs Proofs.C01Proofs Proofs.C04Proofs Proofs.C06Proofs.
 Local Open Scope Z_scope.
 
 Local Strategy opaque [eval_cmds eval_cmd eval_operand eval_args call_ident field_chain eval_field].
@@ -1183,6 +1183,14 @@ Definition node_of_tok (t : tok) : option tnode :=
   | _ => None
   end.
 
+(* a buffered string literal is written into the template as text through the delimiter quoting of the Text
+   arm (repair F-C06-f): it is ONE text token exactly when nothing in it needs quoting *)
+Definition str_single (e : jexpr) : bool :=
+  match e with
+  | JStr s => match text_toks (quote_text (escape s)) with [] | [TText _] => true | _ => false end
+  | _ => true
+  end.
+
 Section CargSome.
   Variable funcs : list bytes.
   Lemma carg_some e :
@@ -1304,11 +1312,12 @@ Section Text.
       env_repu_on (fv e) (e_vars E) (s_env s) -> env_range_on (fv e) (s_env s) ->
       sem_expr fs s e = SOk (j, s') -> s_flags s' = s_flags s -> dead_quiet fs s e = true ->
       printable j = true -> print_string s' j = SOk (t, s2) ->
+      str_single e = true ->
       cwrap funcs false e = Some toks ->
       exists tk n, toks = [tk] /\ node_of_tok tk = Some n /\
                    exec_node defs (S fuel) dot st n = Ok (emit st (escape t)).
     Proof.
-      intros Hsc Hn Hrep Hrng Hs Hf Hd Hp Hpr Hw.
+      intros Hsc Hn Hrep Hrng Hs Hf Hd Hp Hpr Hsingle Hw.
       assert (Hgen : (forall tx a, carg funcs true e = Some (tx, Some a) ->
                                    cwrap funcs false e = Some (wrap_value false tx a)) ->
                      exists tk n, toks = [tk] /\ node_of_tok tk = Some n /\
@@ -1329,8 +1338,11 @@ Section Text.
       - (* string literal *)
         destruct fs as [|f]; [discriminate Hs|]. rewrite sem_str in Hs. injection Hs as <- <-.
         unfold print_string, tostr in Hpr. cbn in Hpr. injection Hpr as <- _.
-        cbn [cwrap] in Hw. destruct (has_delim (escape s0)); [discriminate Hw|]. injection Hw as <-.
-        exists (TText (escape s0)), (NText (escape s0)). repeat split.
+        cbn [cwrap] in Hw. rewrite ctext_total in Hw. cbn [str_single] in Hsingle.
+        pose proof (toks_value_text (escape s0)) as Hv.
+        destruct (text_toks (quote_text (escape s0))) as [|[y|] [|]]; try discriminate Hsingle; injection Hw as <-.
+        + cbn in Hv. injection Hv as Hv. rewrite <- Hv. exists (TText []), (NText []). repeat split.
+        + cbn in Hv. rewrite app_nil_r in Hv. injection Hv as ->. exists (TText (escape s0)), (NText (escape s0)). repeat split.
       - (* boolean literal *)
         destruct fs as [|f]; [discriminate Hs|]. rewrite sem_bool in Hs. injection Hs as <- <-.
         unfold print_string, tostr in Hpr. cbn in Hpr. injection Hpr as <- _.
@@ -1363,6 +1375,39 @@ Section Text.
     Qed.
   End One.
 End Text.
+
+(* ---- the hypothesis [str_single] of text_cwrap ------------------------------------------------------------ *)
+(* it holds for every literal whose escaped text has no brace ... *)
+Definition no_brace (c : ascii) : bool := negb (Ascii.eqb c "{") && negb (Ascii.eqb c "}").
+Lemma tokz_no_brace x : forallb no_brace x = true -> tokz x = map QC x.
+Proof.
+  revert x. apply (list_ind2 (fun x => forallb no_brace x = true -> tokz x = map QC x)).
+  - reflexivity.
+  - reflexivity.
+  - intros a b r IH1 IH2 H. cbn [forallb] in H. apply andb_true_iff in H. destruct H as [Ha Hr].
+    rewrite tokz_cons2. unfold no_brace in Ha. apply andb_true_iff in Ha. destruct Ha as [A1 A2].
+    apply negb_true_iff in A1, A2. rewrite A1, A2. cbn [andb map]. rewrite (IH2 Hr). reflexivity.
+Qed.
+Lemma ttoks_no_brace x : forall acc, forallb no_brace x = true -> ttoks acc (map QC x) = flush (rev x ++ acc).
+Proof.
+  induction x as [|c x IH]; intros acc H; [reflexivity|].
+  cbn [forallb] in H. apply andb_true_iff in H. destruct H as [Hc Hx].
+  unfold no_brace in Hc. apply andb_true_iff in Hc. destruct Hc as [A1 _]. apply negb_true_iff in A1.
+  cbn [map ttoks]. rewrite A1. cbn [andb]. rewrite (IH _ Hx). cbn [rev]. rewrite <- app_assoc. reflexivity.
+Qed.
+Lemma str_single_no_brace s : forallb no_brace (escape s) = true -> str_single (JStr s) = true.
+Proof.
+  intros H. cbn [str_single].
+  assert (E : text_toks (quote_text (escape s)) = ttoks [] (tokz (escape s))).
+  { unfold text_toks. rewrite quote_text_rend. apply tt_rend; [apply nf_tokz|lia]. }
+  rewrite E, (tokz_no_brace _ H), (ttoks_no_brace _ [] H). destruct (rev (escape s) ++ []); reflexivity.
+Qed.
+(* ... and it is forced: a literal with a delimiter in it is written as several tokens (text and the quoting
+   actions of the Text arm), which together print the escaped literal (Props/C06.v C06_code_literal) *)
+Example text_cwrap_quoted_literal :
+  scalar_core [] (JStr (B "a}}")) = true /\ str_single (JStr (B "a}}")) = false /\
+  cwrap [] false (JStr (B "a}}")) = Some [TText (B "a"); lit_close].
+Proof. repeat split; vm_compute; reflexivity. Qed.
 
 (* ---- non-vacuity: a depth-5 expression over a number, a string and a boolean ------------------------------ *)
 Definition ex_funcs : list bytes := [B "Math"; B "JSON"; B "Object"; B "stripTags"; B "parseInt"].
